@@ -32,6 +32,17 @@ def render(results, fmt, via, lang):
     try:
         if via == 'to_string':
             return ('ok', P.to_string(results, fmt))
+        if isinstance(via, str) and via.startswith('print'):
+            # the printing entry point itself (what the CLI calls), with the keyword arguments it forwards to print():
+            # everything it writes, to the given file or to standard output, is the rendering
+            import contextlib
+            import io
+            buf, stdout = io.StringIO(), io.StringIO()
+            kw = {'print': {}, 'print:file': {'file': buf}, 'print:file_end': {'file': buf, 'end': ''},
+                  'print:end': {'end': '<END>'}, 'print:sep_flush': {'sep': '|', 'flush': True}}[via]
+            with contextlib.redirect_stdout(stdout):
+                P.print_(results, format=fmt, **kw)
+            return ('ok', 'FILE:' + buf.getvalue() + '\nSTDOUT:' + stdout.getvalue())
         if isinstance(via, str) and via.startswith('flat:'):
             # the documented single-sentence form: a flat list of ScoredTree
             return ('ok', P.to_string(results[int(via[5:]) % len(results)], fmt))
@@ -189,6 +200,12 @@ class C18(ParserSessionProp):
                 if via == 'flat':
                     via = f'flat:{rng.randrange(12)}'
                 hist.append({'op': 'render', 'format': fmt, 'via': via})
+        # the printing entry point print_ with the keyword arguments it forwards to print(): some renderings go through it
+        prng = gen.stream(seed, 'C18:print', index)
+        if prng.random() < 0.4:
+            for h in hist:
+                if h['op'] == 'render' and h['via'] == 'to_string' and prng.random() < 0.6:
+                    h['via'] = prng.choice(['print', 'print:file', 'print:file_end', 'print:end', 'print:sep_flush'])
         # F10: one rendering of every fourth history is pre-empted at an arbitrary instant (Ctrl-C, timeout signal)
         irng = gen.stream(seed, 'C18:interrupt', index)
         renders = [h for h in hist if h['op'] == 'render']
